@@ -65,6 +65,40 @@ func (fx *FuncCtx) libraryModel(st *State, callee *types.Func, qn string, recv V
 		return nil, false
 	}
 	path := callee.Pkg().Path()
+	if path == "gonum.org/v1/gonum/internal/math32" {
+		// float32 twins of the math functions (the package implements them with bit tricks)
+		at := func(i int) Term { return fx.evalTerm(st, call.Args[i]) }
+		switch callee.Name() {
+		case "Abs":
+			return fx.mathAbs(at(0)), true
+		case "IsNaN":
+			return fx.mathIsNaN(at(0)), true
+		case "IsInf":
+			a, sg := at(0), at(1)
+			if n, ok := isIntLit(sg); ok {
+				return fx.mathIsInf(a, sign64(n)), true
+			}
+			return Ite(Gt(sg, IntLit(0)), fx.mathIsInf(a, 1), Ite(Lt(sg, IntLit(0)), fx.mathIsInf(a, -1), fx.mathIsInf(a, 0))), true
+		case "NaN":
+			if fx.ieee {
+				return Term{"(_ NaN 8 24)", SF32}, true
+			}
+			if !fx.real {
+				fx.declare("(declare-const math32_NaN F32)")
+				return Term{"math32_NaN", SF32}, true
+			}
+		case "Inf":
+			sg := at(0)
+			if fx.ieee {
+				return Ite(Ge(sg, IntLit(0)), Term{"(_ +oo 8 24)", SF32}, Term{"(_ -oo 8 24)", SF32}), true
+			}
+			if !fx.real {
+				fx.declFun("math32_Inf", []Sort{SBool}, SF32)
+				return app(SF32, "math32_Inf", Ge(sg, IntLit(0))), true
+			}
+		}
+		return nil, false
+	}
 	if strings.HasPrefix(path, "gonum.org/v1/gonum") {
 		return nil, false
 	}
